@@ -1,4 +1,5 @@
 """C02 - every successful LR parse yields a valid derivation tree of the consumed input."""
+import re
 from . import mir, rt, c05, idiom
 from .mir import Sim, TermBuilder, callee, fmt
 
@@ -80,6 +81,13 @@ def r2_cell_mutators(F, res):
             key = "%s/%s" % (f.path.rsplit("::", 1)[-1], m)
             if "alloc::vec::Vec" not in c and "Clone" not in c and "Deref" not in c and "slice" not in c:
                 continue
+            # a call that gets the cell by shared reference cannot change it: reads are not this rule's business
+            a0 = t["args"][0]
+            pl = a0.get("p") if isinstance(a0, dict) else None
+            if pl is not None and not pl.get("proj") and "locals" in f.d and pl.get("l") is not None:
+                ty = f.d["locals"][pl["l"]]["ty"]
+                if ty.startswith("&") and not re.match(r"^&('\w+ )?mut ", ty):
+                    continue
             if m in allowed:
                 if m == "push":
                     a = tb.operand(t["args"][1])
